@@ -1423,6 +1423,8 @@ class Emit:
         if m == "neg" and t == "i128":
             v = self.fresh()
             return ls + [f"let {v} ← negI128 prof ({xr})"], v
+        if m == "divmod" and "divmod" in self.sigs:
+            return self.call(("call", ["divmod"], [recv] + list(args)), hint)
         if m == "divmod":
             v1, v2 = self.fresh(), self.fresh()
             return ls + [f"let {v1} ← divI128 ({xr}) ({xs[0]})", f"let {v2} ← remI128 ({xr}) ({xs[0]})"], f"({v1}, {v2})"
@@ -2259,6 +2261,7 @@ KERNELS = [
     ("KLog", "fpdec-core/src/lib.rs", "u128", None),
     ("KSwar", "fpdec-core/src/parser.rs", "chunk_contains_8_digits", None),
     ("KSwar", "fpdec-core/src/parser.rs", "chunk_to_u64", None),
+    ("KUnops", "src/unops.rs", "divmod", "i128"),
     ("KUnops", "src/unops.rs", "div_floor", "i128"),
     ("KUnops", "src/unops.rs", "div_ceil", "i128"),
     ("KIntOps", "src/binops/mul.rs", "mul", "Decimal",
